@@ -123,11 +123,11 @@ text("C19",
      "deterministic simulation with fault injection (step-mode attribution of server emissions, construction-based ground truth)", "DESIGN.md 4 C19")
 
 add("C16", "exploration",
-    [{"name": "tube-shutdown", "quick_s": 40, "thorough_s": 900}],
+    [{"name": "tube-shutdown", "quick_s": 40, "thorough_s": 900}, {"name": "bulk-stop", "quick_s": 20, "thorough_s": 400}],
     real=["tubes (Muxer, Reliable, Unreliable, sender, receiver): yield-instrumented copies of the current sources", "common.DeadlineChan"],
     stub=["transport session under the muxers in 7 of 8 runs (simulated MsgConn pair); in 1 of 8 runs the muxers run on a real transport session"])
 text("C16",
-     "seeded concurrent programs (Write / Read with deadline / Close / WaitForClose per tube end, 1-4 reliable and unreliable tubes opened from both sides, Muxer.Stop on either side at drawn instants, also twice and racing Create/Accept) over a network that is healthy, lossy, dead from the start, dying at a drawn instant, one-way dead or lossy-then-dead, with seeded yields (Gosched / micro- and millisecond stalls) armed at instrumented lock/channel/atomic/timer sites of package tubes; oracle: every Close and every Stop returns within 30 simulated seconds, WaitForClose completes within 90 s once both ends closed on a live network or the muxer was stopped, after Stop every tube is closed and Write fails, Read never returns bytes that were not written, after closure Read drains and reports end-of-stream, no panic, and no goroutine of the system is left when the bubble ends (synctest deadlock report)",
+     "seeded concurrent programs (Write / Read with deadline / Close / WaitForClose per tube end, 1-4 reliable and unreliable tubes opened from both sides, Muxer.Stop on either side at drawn instants, also twice and racing Create/Accept) over a network that is healthy, lossy, dead from the start, dying at a drawn instant, one-way dead or lossy-then-dead, with seeded yields (Gosched / micro- and millisecond stalls, one in twelve a stall of 20 ms to 2 s; per run either 1-6 random sites or every site of one function) armed at instrumented lock/channel/atomic/timer sites of package tubes; oracle: every Close and every Stop returns within 30 simulated seconds, WaitForClose completes within 90 s once both ends closed on a live network or the muxer was stopped, after Stop every tube is closed and Write fails, Read never returns bytes that were not written, after closure Read drains and reports end-of-stream, no panic, and no goroutine of the system is left when the bubble ends (synctest deadlock report). Second scenario (bulk-stop): a bulk transfer of 0.2-1.7 MB in writes of 300 B to 300 kB (far more frames than the window) is interrupted after 10-2500 ms by Stop of either or both muxers, Close then Stop, or the death of the network, with yields (incl. stalls of up to 2 s) concentrated in the sender / close / stop functions; oracle: no panic, every Stop and Close returns, Write and Read come back after the stop, no goroutine left",
      TB + "; interleavings are explored on one P at instrumented synchronisation statements (sequentially consistent); Write/Read blocking on a tube whose initiation never completes is outside the statement and not judged; on a dead network WaitForClose is only required to return once Muxer.Stop is called",
      "deterministic simulation with fault injection (seeded schedule perturbation at instrumented yield points + fault schedules, bounded-liveness and leak oracles)", "DESIGN.md 4 C16")
 
